@@ -34,11 +34,11 @@ var recipeSites = []Site{
 	{"X25519Recipient.Wrap.stanzas", pkgAge, "X25519Recipient", "Wrap", "ret:0", []string{"C04", "C05", "C01", "C06"}},
 	{"X25519Identity.unwrap.result", pkgAge, "X25519Identity", "unwrap", "ret:0", []string{"C04", "C05", "C01"}},
 	{"X25519Identity.unwrap.guards", pkgAge, "X25519Identity", "unwrap", "facts:age.aeadDecrypt", []string{"C05", "C01"}},
-	{"newX25519IdentityFromScalar.result", pkgAge, "", "newX25519IdentityFromScalar", "ret:0", []string{"C04", "C05", "C01"}},
-	{"newX25519IdentityFromScalar.guards", pkgAge, "", "newX25519IdentityFromScalar", "facts:ret", []string{"C05"}},
+	{"newX25519IdentityFromScalar.result", pkgAge, "", "newX25519IdentityFromScalar", "ret:0", []string{"C04", "C05", "C01", "C09"}},
+	{"newX25519IdentityFromScalar.guards", pkgAge, "", "newX25519IdentityFromScalar", "facts:ret", []string{"C05", "C09"}},
 	{"X25519Identity.Recipient.result", pkgAge, "X25519Identity", "Recipient", "ret:0", []string{"C04", "C05", "C01"}},
 	// newX25519RecipientFromPoint is spliced into its callers by the normal form
-	{"ParseX25519Recipient.result", pkgAge, "", "ParseX25519Recipient", "ret:0", []string{"C04", "C05", "C01"}},
+	{"ParseX25519Recipient.result", pkgAge, "", "ParseX25519Recipient", "ret:0", []string{"C04", "C05", "C01", "C09"}},
 	{"X25519Identity.Recipient.result", pkgAge, "X25519Identity", "Recipient", "ret:0", []string{"C04", "C05", "C01"}},
 	{"ParseX25519Recipient.hrp", pkgAge, "", "ParseX25519Recipient", "facts:ret", []string{"C05", "C09"}},
 	{"ParseX25519Identity.hrp", pkgAge, "", "ParseX25519Identity", "facts:ret", []string{"C05", "C09"}},
